@@ -252,7 +252,21 @@ theorem slotGood_of (cfg : Cfg) (s : Slot) (h : slotGoodB cfg s = true) : SlotGo
             guard := fun _ => by simp [addGuard, carries, h3],
             resort := by simp [incrSort, h1],
             exclusive := by intro s' hs'; cases s' <;> simp_all [phys],
-            stable := fun o rq => Or.inl (by simp [refreshes, h4]) }
+            stable := by
+              intro o rq
+              -- re-filed whenever `contentChanged` is up; when it is not, the content did not move
+              cases hc : (mergeRec cfg (some o) rq).contFlag
+              · refine Or.inr ?_
+                simp only [mergeRec, Bool.or_eq_false_iff, Bool.and_eq_false_iff, Bool.not_eq_false',
+                  bne_eq_false_iff_eq] at hc
+                simp only [attrEq, mergeRec]
+                by_cases hk : (rq.ct == CT.void) = true
+                · simp [hk]
+                · simp only [hk, Bool.false_eq_true, if_false]
+                  rcases hc.2 with h | h
+                  · exact absurd h hk
+                  · exact ⟨h.2.symm, h.1.symm⟩
+              · exact Or.inl (by simp [refreshes, h4, hc]) }
 
 /-- all facts sound -/
 def goodB (cfg : Cfg) : Bool :=
